@@ -46,6 +46,14 @@ void nest_chain(const std::vector<uint64_t>& kinds, size_t depth, unsigned leaf_
   *total_levels = (unsigned)depth + lv;
 }
 
+// deep AND bushy: every level is an indefinite array holding `w` empty containers (they open no level), then the next level, then w/4 more
+static void nest_chain_bushy(size_t depth, uint64_t w, unsigned leaf_kind, std::vector<uint8_t>& out, unsigned* total_levels) {
+  for (size_t i = 0; i < depth; i++) { out.push_back(0x9f); for (uint64_t k = 0; k < w; k++) out.push_back((k + i) % 3 == 0 ? 0xa0 : 0x80); }
+  unsigned lv = 0; leaf(leaf_kind, out, &lv);
+  for (size_t i = depth; i-- > 0;) { for (uint64_t k = 0; k < w / 4; k++) out.push_back(0x80); out.push_back(0xff); }
+  *total_levels = (unsigned)depth + lv;
+}
+
 J gen_nest(const std::string& prop, uint64_t run_seed, const std::string& tier) {
   (void)prop; (void)tier;
   Rng g(run_seed, "gen"), kn(run_seed, "knobs"), net(run_seed, "net");
@@ -72,6 +80,14 @@ J gen_nest(const std::string& prop, uint64_t run_seed, const std::string& tier) 
     uint64_t b = 1 + (g.chance(1, 2) ? g.below(a / 4 + 1) : g.below(a)); if (b >= a) b = a - 1;   // at least one level stays open, or the prefix would be a complete item
     J z = J::arr(); z.push(a); z.push(b); plan.set("zig", z);
   }
+  // deep and bushy at once: per-level bookkeeping that is sized by the limit but filled by siblings shows only here
+  if (!plan.has("zig") && g.chance(1, 6)) {
+    static const uint64_t WS[] = {1, 2, 7}; uint64_t w;
+    switch (g.below(6)) { case 0: w = WS[g.below(3)]; break; case 1: w = (uint64_t)L + 1; break; case 2: case 3: w = (uint64_t)L + 2; break; case 4: w = (uint64_t)L + 3; break; default: w = 2ull * L + 5; }
+    uint64_t bd = depth; if (bd > L) bd = g.chance(1, 2) ? L : (L > 1 ? L - 1 : 1);      // bushy inputs stay within the limit: it is their release that is interesting
+    while (bd > 1 && bd * (w + w / 4 + 2) > 600000) bd = bd * 3 / 4;
+    if (bd * (w + w / 4 + 2) <= 600000) { plan.set("bush", w); plan.set("depth", bd); depth = bd; }
+  }
   // fragments
   J cuts = J::arr(); unsigned nf = (unsigned)net.below(6); for (unsigned i = 0; i < nf; i++) cuts.push(net.range(1, 3 * depth + 4)); plan.set("cuts", cuts);
   if (net.chance(1, 6)) plan.set("close", net.below(4 * depth + 6));
@@ -93,7 +109,8 @@ void exec_nest(const J& plan) {
     std::vector<uint8_t> rest; unsigned rl = 0; nest_chain(kinds, (size_t)(depth - zig_b), leaf_kind, rest, &rl);
     stream.insert(stream.end(), rest.begin(), rest.end()); stream.insert(stream.end(), (size_t)zig_b, 0xff);
     levels = (unsigned)zig_b + rl;
-  } else nest_chain(kinds, (size_t)depth, leaf_kind, stream, &levels);
+  } else if (plan.getu("bush", 0) > 0) { kinds.assign(1, 2); nest_chain_bushy((size_t)depth, plan.getu("bush"), leaf_kind, stream, &levels); stat_add("bushy_chains"); }
+  else nest_chain(kinds, (size_t)depth, leaf_kind, stream, &levels);
   // --- calibration: the same kinds nested exactly as deep as the limit allows, on a generous stack: how much native stack does the accepted pipeline use on this build?
   unsigned leaf_levels = levels - (unsigned)depth;
   size_t cal_depth = L > leaf_levels ? L - leaf_levels : 0;
